@@ -87,20 +87,20 @@ pub fn spec(id: &str) -> Option<PropSpec> {
             vec!["cur-blst"],
         )),
         "C01" => Some(base(
-            vec![cs(&SIGN, "grid", 1368, 1368 * 3, true), cs(&SIGN, "grid-lengths", COMPOSITE_CELLS, COMPOSITE_CELLS * 3, true), cs(&SIGN, "grid-keys", GRID_KEYS, GRID_KEYS * 3, true), cs(&SIGN, "retry-restart", 600, 12000, false)],
+            vec![cs(&SIGN, "grid", 1368, 1368 * 3, true), cs(&SIGN, "grid-lengths", COMPOSITE_CELLS, COMPOSITE_CELLS * 3, true), cs(&SIGN, "grid-keys", GRID_KEYS, GRID_KEYS * 3, true), cs(&SIGN, "grid-big", 24, 72, true), cs(&SIGN, "retry-restart", 600, 12000, false)],
             "cases = (group, scheme, key class {1, 2, r-2, r-1, hash-derived, seeded random}, message-length class, key codec on disk, wire codec, fault-script length); \
              class `grid-keys` enumerates 1296 limb-pattern keys (each 64-bit word of the scalar one of 0, 1, 0x80, 2^56, 2^63, 2^64-1) x the 8 key codecs, then the edge-encoding keys (public key k*G whose compressed x-coordinate begins with the modulus' leading 32-bit word or with a zero word; found by a one-off exhaustive walk, re-verified at start-up) x both groups x the 8 key codecs; class `grid-lengths` enumerates (group, scheme) x every composite-boundary length (a power of two, hash-block or XOF-rate multiple minus a 48-/96-byte key prefix or a 1-3 byte length prefix, -1/0/+1: 4000, 4048, 16288, ...); class `grid` enumerates every key class x length class (0,1,31,32,33,127,128,129,255,256,257,4 KiB,16382,16383,16384,64 KiB,40,100 and the hash block / XOF rate boundaries 7,8,15,16,17,23,24,55,56,63,64,65,119,120,167,168,169,336) x scheme x group; \
              non-trivial = a run with at least one transport/crash fault (retries, duplicates, restarts with key reload)",
             vec!["cur-blst"],
         )),
         "C02" => Some(base(
-            vec![cs(&SIGN, "tamper", 2200, 40000, false), cs(&SIGN, "tamper-lengths", COMPOSITE_CELLS, COMPOSITE_CELLS * 6, false), cs(&SIGN, "bitflip-all", 6, 54, false)],
+            vec![cs(&SIGN, "tamper", 2200, 40000, false), cs(&SIGN, "tamper-lengths", COMPOSITE_CELLS, COMPOSITE_CELLS * 6, false), cs(&SIGN, "tamper-big", 24, 144, false), cs(&SIGN, "bitflip-all", 6, 54, false)],
             "cases = (group, scheme, perturbation kind of the Byzantine relay {sig+kG, -sig, k*sig, signature of another message/key, message bit-flip/truncate/extend/empty/prefix, other key, pk+G, -pk, relabel, valid related tuples, in-flight bit flips}, reference decision); \
              `bitflip-all` flips every single bit of the pk, signature and message encodings of one honest tuple per run; every perturbed tuple is non-trivial",
             vec!["cur-blst", "ref (draft tags)"],
         )),
         "C03" => Some(base(
-            vec![cs(&SIGN, "interop", 1500, 30000, false), cs(&SIGN, "interop-lengths", COMPOSITE_CELLS, COMPOSITE_CELLS * 3, true)],
+            vec![cs(&SIGN, "interop", 1500, 30000, false), cs(&SIGN, "interop-lengths", COMPOSITE_CELLS, COMPOSITE_CELLS * 3, true), cs(&SIGN, "interop-big", 24, 72, true)],
             "cases = (group, key class, seed length, message-length class, scheme, aggregate size, repeated-message flag); the reference implementation is a peer: byte equality of KeyGen / SkToPk / CoreSign x3 / PopProve / Aggregate and mutual acceptance; \
              no schedule or fault influences this property (stated in DESIGN.md): non-trivial counts cases with edge keys, seeds shorter than 32 bytes or repeated aggregate messages",
             vec!["cur-blst", "ref (draft tags)"],
